@@ -297,6 +297,26 @@ def tail_open(sem, cap=300):
     return out - {rx.END}
 
 
+def reentrant(sem, cap=200):
+    """some non-empty string brings the pattern back to its initial derivative state"""
+    seen = set()
+    todo = [sem]
+    first = True
+    while todo and len(seen) < cap:
+        q = todo.pop()
+        for part in rx.partition(rx.sets_in(q)):
+            c = min(part)
+            d = rx.deriv(q, c)
+            if d == rx.EMPTY:
+                continue
+            if d == sem:
+                return True
+            if d not in seen:
+                seen.add(d)
+                todo.append(d)
+    return False
+
+
 def is_open(sem):
     return bool(tail_open(sem))
 
@@ -400,6 +420,8 @@ DEFAULT_PROFILE = dict(
            loop=6, case=8, gcase=0, optional=6, try_=7, foreach=4, if_=5, break_=0),
     eof=False, yields=False, close_paths=True, hazards=False, strict_after_open=0.05,
     str_defaults=0.0, str_default_too_long=0.0, assign_high_bytes=0.0, big_caps=0.0,
+    no_action_after_open=False,     # RI profiles: a non-strict action right after an open-ended statement is applied speculatively by nmfu
+    optional_nonreentrant=False,    # RI profiles: see known finding "optional start state re-entered"
     str_caps=(1, 2, 3, 4, 6), regex_prob=0.35, casei_prob=0.1, binary_prob=0.08, high_bytes=0.05,
 )
 
@@ -539,7 +561,8 @@ class Gen:
             if q < 0.85 and bufs:
                 return N("len", name=rng.choice(bufs).name)
             if q < 0.93 and bufs:
-                return N("idx", name=rng.choice(bufs).name, e=N("num", v=rng.choice([0, 1, 5]), text=str(rng.choice([0, 1, 5]))))
+                iv = rng.choice([0, 1, 5])
+                return N("idx", name=rng.choice(bufs).name, e=N("num", v=iv, text=str(iv)))
             if allow_last:
                 return N("last")
             return N("num", v=1, text="1")
@@ -638,11 +661,15 @@ class Gen:
         open_after = set(avoid)     # bytes the next match must not start with
         prev_open = False           # previous statement ends by lookahead (strict actions unschedulable)
         terminated = False
+        self._prev_kind = None
         for i in range(n):
             first = (i == 0)
             want_match = must_start_match if first else False
+            self._after_match = bool(stmts) and stmts[-1].kind in ("match", "appendm")
             s, o, is_open_, term = self.statement(ctx, depth, open_after, want_match, prev_open, first)
             if s is None:
+                continue
+            if self.p["no_action_after_open"] and s.kind in ACTION_KINDS and prev_open:
                 continue
             stmts.append(s)
             if s.kind in ACTION_KINDS:
@@ -696,7 +723,7 @@ class Gen:
             sem = pat_sem(p)
             return N("wait", p=p), tail_open(sem), is_open(sem), False
         if kind == "action":
-            return self.action(ctx, strict_ok=strict_ok, after_match=not first), None, None, False
+            return self.action(ctx, strict_ok=strict_ok, after_match=getattr(self, "_after_match", False)), None, None, False
         if kind == "finish":
             if not strict_ok:
                 return None, None, None, False
@@ -712,6 +739,9 @@ class Gen:
             return N("break", label=lab if (lab and rng.random() < 0.6) else (None if lab == lbls[-1] or not lab else lab)), None, None, True
         if kind == "optional":
             body, o, po, term = self.block(ctx, depth - 1, avoid, must_start_match="strict", nmax=2)
+            if self.p["optional_nonreentrant"] and body and body[0].kind in ("match", "appendm") and reentrant(pat_sem(body[0].p)):
+                body[0] = N("match", p=self.literal(avoid))
+                o, po = (set(), False) if len(body) == 1 else (o, po)
             firstsem = self.first_of(body)
             return N("optional", body=body), set(o) | set(avoid) | firstsem, po or True, False
         if kind == "loop":
@@ -778,7 +808,7 @@ class Gen:
             # case with at least one breaking clause
             st, o, po, _ = self.case(ctx, depth + 1, avoid, greedy=False, force_break=True)
             pre = []
-            if rng.random() < 0.3:
+            if rng.random() < 0.3 and not self.p["no_action_after_open"]:
                 pre = [self.action(ctx, strict_ok=True)]
             return pre + [st], o, po, False
         # sequence: match; ...; if cond { break; }   or   optional-less: match X; case-less break via try
@@ -824,12 +854,14 @@ class Gen:
                     last_open = last_open or is_open(sem)
             if depth > 0 and rng.random() < 0.7:
                 body, o, po, term = self.block(ctx, depth - 1, av, nmax=2)
-                if last_open and body and body[0].kind in STRICT_KINDS and rng.random() > self.p["strict_after_open"]:
+                if last_open and body and body[0].kind in (ACTION_KINDS if self.p["no_action_after_open"] else STRICT_KINDS) and (self.p["no_action_after_open"] or rng.random() > self.p["strict_after_open"]):
                     body.insert(0, N("match", p=self.literal(av)))
             else:
                 body, o, po = [], av, last_open
                 if rng.random() < 0.5 and not last_open:
                     body = [self.action(ctx, strict_ok=True, after_match=True)]
+            if self.p["no_action_after_open"] and last_open and body and body[0].kind in ACTION_KINDS:
+                body.insert(0, N("match", p=self.literal(av)))
             if force_break and i == ncl - 1 and not any(self.has_break(cl.body) for cl in clauses):
                 body = [s for s in body if s.kind not in ("finish", "break")]
                 if last_open and not body:
